@@ -103,6 +103,8 @@ def unit_wrapper1(mode, nspin, add):
 def replay_wrapper1(mode, nspin, add):
     """Native replay with concrete smooth stand-ins for the abstract components."""
     def replay(wit):
+        from pyvc import native
+        native.install_shim()
         import ciderpress.dft.xc_evaluator as xe
         import ciderpress.dft.transform_data as td
 
